@@ -64,9 +64,10 @@ Section SimC.
       comp_chain pool rhs (comp pool rhs RAny) o lreg cmpreg resreg st = OK (u, st', c) -> wfst st ->
       dchain (match resreg with None => true | Some _ => false end) o rhs = false ->
       (ip st' = ip st + code_size c /\ ext st st' /\ wfst st' /\ tcount st <= tcount st') /\
-      forall n s rs D prog brk lv,
+      forall n s rs D prog brk F lv,
+        ext st' F -> wfst F ->
         known_expr rhs = false ->
-        inv st D s rs -> (forall x, D x = true -> reads x rhs = false) ->
+        inv F D s rs -> (forall x, D x = true -> reads x rhs = false) ->
         get rs lreg = Some lv -> lreg < tbase st + tcount st ->
         (forall st2 x, ext st st2 -> wfst st2 -> assigns x (next_operand rhs) = true ->
                        slot_of st2 x <> Some lreg) ->
@@ -78,7 +79,7 @@ Section SimC.
         match eval_chain (eval n) s lv o rhs with
         | ONorm v s' =>
           exists rs', star pool prog (ip st) rs (ip st') rs' /\ length rs' = length rs /\
-            inv st' (dirty st' (RFixed cmpreg) D) s' rs' /\
+            inv F (dirty F (RFixed cmpreg) D) s' rs' /\
             (forall reg, resreg = Some reg -> get rs' reg = Some v) /\
             (forall k, k < tbase st + tcount st -> k <> cmpreg ->
                (forall x, assigns x rhs = true -> slot_of st' x <> Some k) -> get rs' k = get rs k) /\
@@ -141,11 +142,14 @@ Section SimC.
       + eapply ext_trans; [exact EA|apply ext_set_ip].
       + apply wfst_set_ip. assumption.
       + rewrite !code_size_app. cbn [code_size]. lia.
-    - intros n s rs D prog brk lv K IV RD GL LB LK CL CP CB RC OWN B CA. rewrite EVC. rewrite NX in LK.
+    - intros n s rs D prog brk F lv EF WF K IV RD GL LB LK CL CP CB RC OWN B CA. rewrite EVC. rewrite NX in LK.
+      assert (EF2 : ext st2 F).
+      { destruct EM as [(reg & _ & _ & ->)|(_ & _ & ->)]; [eapply ext_trans; [apply ext_set_ip|exact EF]|exact EF]. }
+      assert (EF0 : ext st F) by (eapply ext_trans; eauto).
       norm_code CA. apply cares_app in CA as [CA1 CA2].
       assert (B1 : tbase st + tused st2 <= N.of_nat (length rs)).
       { destruct EM as [(reg & _ & _ & ->)|(_ & _ & ->)]; cbn [tused set_ip] in B; lia. }
-      specialize (DA n s rs D prog brk K IV RD (dest_ok_any _ _ _ _) B1 CA1).
+      specialize (DA n s rs D prog brk F EF2 WF K IV RD (dest_ok_any _ _ _ _) B1 CA1).
       destruct (eval n s rhs) as [rv s1| | | |]; try contradiction; [|exact DA|exact Logic.I].
       destruct DA as (rs1 & S1 & LN1 & IVa & RA & FRa & SFa).
       apply dirty_any in IVa. specialize (RA _ ORR).
@@ -164,14 +168,12 @@ Section SimC.
         exists rs2. splits.
         * eapply star_trans; [exact S1|]. cbn [ip set_ip size]. apply star_one. exact ST.
         * rewrite (set_length _ _ _ _ SET). exact LN1.
-        * apply inv_set_ip.
-          assert (IV6 : inv st2 (dirty (set_ip st2 (ip st2 + 4)) (RFixed cmpreg) D) s1 rs1).
+        * assert (IV6 : inv F (dirty F (RFixed cmpreg) D) s1 rs1).
           { eapply inv_weaken; [exact IVa|]. intros. apply dirty_mono. assumption. }
-          eapply inv_set; eauto.
+          eapply (inv_setF st); eauto.
           destruct CP as [Hd|Hd].
-          -- right. split; [pose proof (ext_len _ _ EA); lia|].
-             intros x Sx. unfold dirty. rewrite slot_of_set_ip, Sx, N.eqb_refl. apply orb_true_r.
-          -- left. rewrite (ext_tbase _ _ EA). assumption.
+          -- right. split; [assumption|]. intros x Sx. apply dirty_self. assumption.
+          -- left. assumption.
         * intros reg RG. inversion RG; subst. eapply get_set_same; eauto.
         * intros k K1 K2 K3. rewrite (get_set_other _ _ _ _ k SET); [|assumption].
           apply FRa; auto. cbn. discriminate.
@@ -213,7 +215,10 @@ Section SimC.
     - splits; auto.
       + rewrite !code_size_app. cbn [code_size size]. lia.
       + assert (tcount st3a = tcount st2) by reflexivity. lia.
-    - intros n s rs D prog brk lv K IV RD GL LB LK CL CP CB RC OWN B CA.
+    - intros n s rs D prog brk F lv EF WF K IV RD GL LB LK CL CP CB RC OWN B CA.
+      assert (EF3a : ext st3a F) by (eapply ext_trans; eauto).
+      assert (EF2 : ext st2 F) by (eapply ext_trans; eauto).
+      assert (EF0 : ext st F) by (eapply ext_trans; eauto).
       cbn [eval_chain]. cbn [known_expr] in K. apply orb_false_elim in K as [K Kc].
       apply orb_false_elim in K as [AL Kb]. cbn [next_operand] in LK.
       specialize (OWN eq_refl).
@@ -225,7 +230,7 @@ Section SimC.
       { intros x Dx. apply RD in Dx. cbn in Dx. apply orb_false_elim in Dx. tauto. }
       assert (B1 : tbase st + tused st2 <= N.of_nat (length rs)).
       { pose proof (ext_used _ _ E2'). lia. }
-      specialize (DB n s rs D prog brk Kb IV RDb (dest_ok_any _ _ _ _) B1 CA1).
+      specialize (DB n s rs D prog brk F EF2 WF Kb IV RDb (dest_ok_any _ _ _ _) B1 CA1).
       destruct (eval n s b) as [bv s1| | | |]; try contradiction; [|exact DB|exact Logic.I].
       destruct DB as (rs1 & S1 & LN1 & IVb & RB & FRb & SFb).
       apply dirty_any in IVb. specialize (RB _ OB).
@@ -245,11 +250,11 @@ Section SimC.
         - apply OWN. eapply slot_of_old; eauto.
         - exfalso. destruct (slot_of_id _ _ _ Sx) as (L & _).
           pose proof (wf_len _ W2'). pose proof (ext_tbase _ _ E2). lia. }
-      assert (IV2 : inv st2 D s1 rs2).
-      { eapply inv_set; eauto. destruct CP as [Hd|Hd].
-        - right. split; [pose proof (ext_len _ _ EB); lia|]. intros x Sx.
-          apply (OWN2 st2 x EB WB Sx).
-        - left. rewrite (ext_tbase _ _ EB). assumption. }
+      assert (IV2 : inv F D s1 rs2).
+      { eapply (inv_setF st); eauto. destruct CP as [Hd|Hd].
+        - right. split; [assumption|]. intros x Sx.
+          apply (OWN2 F x EF0 WF Sx).
+        - left. assumption. }
       destruct (held_ok _ _ _ _ (next_operand c) _ SB OB EB WB AL) as (BB & BK).
       assert (BNE : breg <> cmpreg).
       { intros ->. destruct SB as [(-> & C)|(y & l & -> & C & OV & SL)]; cbn in OB; inversion OB; subst.
@@ -279,7 +284,6 @@ Section SimC.
       + (* next link *)
         assert (S3 : star pool prog (ip st) rs (ip st3a) rs2).
         { eapply star_trans; [exact S2|]. apply star_one. rewrite STJ. f_equal. }
-        assert (IV3 : inv st3a D s1 rs2) by (apply inv_set_ip; apply inv_set_ip; exact IV2).
         assert (LN2 : length rs2 = length rs) by (rewrite (set_length _ _ _ _ SET); exact LN1).
         assert (B3 : tbase st3a + tused st' <= N.of_nat (length rs2)).
         { rewrite LN2. change (tbase st3a) with (tbase st2). rewrite (ext_tbase _ _ EB). exact B. }
@@ -287,7 +291,7 @@ Section SimC.
         { match type of CA4 with cares _ _ ?pc _ => assert (EQ4 : pc = ip st3a) by (rewrite IP3a, IB; cbn [size]; lia) end.
           rewrite EQ4 in CA4. exact CA4. }
         assert (E3a0 : ext st st3a) by (eapply ext_trans; [exact EB|exact E23a]).
-        specialize (DCc n s1 rs2 D prog brk bv Kc IV3 RDc GB2).
+        specialize (DCc n s1 rs2 D prog brk F bv EF WF Kc IV2 RDc GB2).
         assert (H1 : breg < tbase st3a + tcount st3a) by exact BB.
         assert (H2 : forall st2' x, ext st3a st2' -> wfst st2' -> assigns x (next_operand c) = true ->
                                     slot_of st2' x <> Some breg).
@@ -318,7 +322,7 @@ Section SimC.
         * eapply star_trans; [exact S2|]. apply star_one. rewrite STJ. f_equal.
           cbn [size]. lia.
         * rewrite (set_length _ _ _ _ SET). exact LN1.
-        * eapply inv_weaken; [eapply inv_ext; [exact IV2|exact E2'|exact WC]|].
+        * eapply inv_weaken; [exact IV2|].
           intros. apply dirty_mono. assumption.
         * intros reg RG. destruct RC as [RC|RC]; [congruence|]. rewrite RC in RG. inversion RG; subst.
           eapply get_set_same; eauto.
@@ -379,7 +383,10 @@ Section SimC.
         * destruct SH as (-> & _). split; [reflexivity|lia].
         * destruct SH as (-> & _). left. split; [reflexivity|lia].
         * destruct SH as (-> & _). split; [reflexivity|lia].
-    - intros n s rs D prog brk K IV RD DO B CA. destruct n; [exact Logic.I|]. cbn [eval].
+    - intros n s rs D prog brk F EF WF K IV RD DO B CA. destruct n; [exact Logic.I|]. cbn [eval].
+      assert (EF3 : ext st3 F) by (eapply ext_trans; eauto).
+      assert (EF2 : ext st2 F) by (eapply ext_trans; eauto).
+      assert (EF0 : ext st F) by (eapply ext_trans; eauto).
       cbn [known_expr] in K. apply orb_false_elim in K as [K Kb]. apply orb_false_elim in K as [AL Ka].
       norm_code CA. apply cares_app in CA as [CA1 CA2].
       assert (RDa : forall x, D x = true -> reads x a = false).
@@ -403,39 +410,38 @@ Section SimC.
       assert (FO : is_cmp b = true -> forall x, slot_of st x = Some cmpreg ->
                      reads x b = false /\ assigns x b = false).
       { intros IC0 x Sx. destruct RK as [->|[_ HT]].
-        - destruct (DO _ eq_refl) as (_ & _ & F). specialize (F _ Sx).
-          destruct b; try discriminate. cbn in F.
-          apply andb_prop in F as [F F4]. apply andb_prop in F as [F F3]. apply andb_prop in F as [F1 F2].
+        - destruct (DO _ eq_refl) as (_ & _ & FX). specialize (FX _ Sx).
+          destruct b; try discriminate. cbn in FX.
+          apply andb_prop in FX as [FX F4]. apply andb_prop in FX as [FX F3]. apply andb_prop in FX as [F1 F2].
           apply negb_true_iff in F1, F2, F3, F4. cbn. rewrite F1, F2, F3, F4. auto.
         - destruct (slot_of_id _ _ _ Sx) as (L & _). pose proof (wf_len _ W). lia. }
-      assert (IV1 : inv st1' D s rs) by (eapply inv_ext; eauto).
       assert (B1 : tbase st1' + tused st2 <= N.of_nat (length rs)).
       { pose proof (ext_used _ _ E2'). lia. }
       rewrite <- I1' in CA1.
-      specialize (DA n s rs D prog brk Ka IV1 RDa (dest_ok_any _ _ _ _) B1 CA1).
+      specialize (DA n s rs D prog brk F EF2 WF Ka IV RDa (dest_ok_any _ _ _ _) B1 CA1).
       destruct (eval n s a) as [va s1| | | |]; try contradiction; [|rewrite <- I1'; exact DA|exact Logic.I].
       destruct DA as (rs1 & S1 & LN1 & IVa & RA & FRa & SFa).
       apply dirty_any in IVa. specialize (RA _ OL).
       destruct (held_ok _ _ _ _ (next_operand b) _ SA OL EA WA AL) as (LB & LK).
-      set (DD := if is_cmp b then dirty st2 (RFixed cmpreg) D else D).
+      set (DD := if is_cmp b then dirty F (RFixed cmpreg) D else D).
       assert (DDD : forall x, D x = true -> DD x = true).
       { intros x Dx. unfold DD. destruct (is_cmp b); [apply dirty_mono|]; assumption. }
-      assert (IVc : inv st2 DD s1 rs1) by (eapply inv_weaken; eauto).
-      assert (OWNst : forall x, slot_of st2 x = Some cmpreg -> slot_of st x = Some cmpreg).
-      { intros x Sx. destruct RPOS as [RP|RP].
+      assert (IVc : inv F DD s1 rs1) by (eapply inv_weaken; eauto).
+      assert (OWNst : forall stx x, ext st stx -> wfst stx -> slot_of stx x = Some cmpreg -> slot_of st x = Some cmpreg).
+      { intros stx x Ex Wx Sx. destruct RPOS as [RP|RP].
         - eapply slot_of_old; eauto.
-        - exfalso. destruct (slot_of_id _ _ _ Sx) as (L & _). pose proof (wf_len _ WA).
-          pose proof (ext_tbase _ _ E02). lia. }
+        - exfalso. destruct (slot_of_id _ _ _ Sx) as (L & _). pose proof (wf_len _ Wx).
+          pose proof (ext_tbase _ _ Ex). lia. }
       assert (RDD : forall x, DD x = true -> reads x b = false).
       { intros x Hx. unfold DD in Hx. destruct (is_cmp b) eqn:IC0; [|auto].
         unfold dirty in Hx. apply orb_true_iff in Hx as [Hx|Hx]; [auto|].
-        destruct (slot_of st2 x) as [l|] eqn:S; [|discriminate]. apply N.eqb_eq in Hx. subst l.
-        apply (FO eq_refl). apply OWNst. assumption. }
+        destruct (slot_of F x) as [l|] eqn:S; [|discriminate]. apply N.eqb_eq in Hx. subst l.
+        apply (FO eq_refl). apply (OWNst F); assumption. }
       assert (OWN : is_cmp b = true -> forall x, slot_of st2 x = Some cmpreg ->
                       DD x = true /\ assigns x b = false).
       { intros IC0 x Sx. split.
-        - unfold DD. rewrite IC0. unfold dirty. rewrite Sx, N.eqb_refl. apply orb_true_r.
-        - apply (FO IC0). apply OWNst. assumption. }
+        - unfold DD. rewrite IC0. apply dirty_self. eapply ext_slot; eauto.
+        - apply (FO IC0). apply (OWNst st2); assumption. }
       assert (H3 : cmpreg < N.of_nat (length rs1)) by (rewrite LN1; exact RL).
       assert (H4 : cmpreg < nlocals st2 \/ tbase st2 <= cmpreg).
       { destruct RPOS as [Hd|Hd]; [left; pose proof (ext_len _ _ E02); lia
@@ -449,7 +455,7 @@ Section SimC.
       assert (B2 : tbase st2 + tused st3 <= N.of_nat (length rs1)).
       { rewrite LN1, (ext_tbase _ _ E02). exact B. }
       assert (CA2' : cares prog brk (ip st2) cch) by (rewrite IA, I1'; exact CA2).
-      specialize (DC n s1 rs1 DD prog brk va Kb IVc RDD RA LB LK H3 H4 H5 RES OWN B2 CA2').
+      specialize (DC n s1 rs1 DD prog brk F va EF3 WF Kb IVc RDD RA LB LK H3 H4 H5 RES OWN B2 CA2').
       destruct (eval_chain (eval n) s1 va o b) as [v s2| | | |]; try contradiction;
         [|eapply star_stops; [rewrite <- I1'; exact S1|exact DC]|exact Logic.I].
       destruct DC as (rs2 & S2 & LN2 & IV3 & RV & FRc & SFc).
@@ -463,14 +469,12 @@ Section SimC.
       exists rs2. splits.
       + change (ip st4) with (ip st3). eapply star_trans; [rewrite <- I1'; exact S1|exact S2].
       + lia.
-      + eapply inv_weaken; [eapply inv_ext; [exact IV3|exact E34|exact W4]|].
+      + eapply inv_weaken; [exact IV3|].
         intros x Hx. unfold dirty in Hx. apply orb_true_iff in Hx as [Hx|Hx].
         * unfold DD in Hx. destruct (is_cmp b).
-          -- eapply (dirty_absorb st st2 st4); eauto.
+          -- eapply (dirty_absorbF st); eauto.
           -- apply dirty_mono. assumption.
-        * eapply (dirty_absorb st st3 st4); eauto.
-          -- eapply ext_trans; eauto.
-          -- unfold dirty. rewrite Hx. apply orb_true_r.
+        * eapply (dirty_absorbF st); eauto. unfold dirty. rewrite Hx. apply orb_true_r.
       + intros ro RO. apply RV. destruct RES as [RE|RE]; congruence.
       + intros k K1 K2 K3. rewrite FRc.
         * apply FRa.
